@@ -326,7 +326,8 @@ META = {
             "non-periodic direction using the periodic centre of mass, wrapped, given pbc = all-but-the-detected-axis, has that axis "
             "moved last, and is minimised along axis 2 with self.min_2d_thickness, and exactly that result is returned - each step is "
             "needed for one clause of the property (atoms inside, periodic in (a,b) only, non-periodic last, thickness). The pinned 2D "
-            "tests compare ids and letters only, so dropping any step passes them. Invariance of ids for concrete inputs is not decided.",
+            "tests compare ids and letters only, so dropping any step passes them. Invariance of ids for concrete inputs is not decided."
+            " Also: the standardised non-periodic axis is found from the rows (not the transpose) of spglib's transformation matrix (x_std = P x), the centre of mass used for centring is the periodic one (object fully periodic at that point), the padded analysis cell is longer than twice the layer thickness, memo coherence with reset().",
     "note": "trusted: CPython ast; the repository model; C20's rules for swap_basis / get_minimized_cell themselves.",
     "technique": "must-pass-through CFG queries + def-use argument rules",
 }
